@@ -14,6 +14,9 @@ use solana_sdk::pubkey::Pubkey;
 
 pub const FLAG_PERMISSIONLESS_BANKRUPTCY: u64 = 1 << 2;
 
+pub fn oracle_keys_pub(b: &Bank) -> Vec<Pubkey> {
+    oracle_keys(b)
+}
 fn oracle_keys(b: &Bank) -> Vec<Pubkey> {
     match b.config.oracle_setup {
         OracleSetup::PythPushOracle | OracleSetup::SwitchboardPull => vec![b.config.oracle_keys[0]],
